@@ -258,6 +258,9 @@ func run(c Case) (pbt.Outcome, error) {
 		errs.Addf("panic in thread %s: %s\n%s", p.Thread, p.Value, p.Stack)
 	}
 	if res.Deadlock || res.Hang || res.StepLimit {
+		if res.Hang {
+			errs.Poison() // a thread is still blocked inside the library: stop this process after saving the case
+		}
 		errs.Addf("deadlock=%v hang=%v steplimit=%v: %s", res.Deadlock, res.Hang, res.StepLimit, res.Detail)
 		return out, errs.Err()
 	}
@@ -366,5 +369,8 @@ func TestRace(t *testing.T) {
 		ID: "C09", Name: "race",
 		Rule: "free-running mode (real parallelism, built with -race, hooks inject seeded Gosched perturbation): 8..16 goroutines run generated first-use/record programs sharing a common prefix of requests on the root and a subscope while another goroutine runs 1..4 report passes (cardinality metrics on); same oracle as the cooperative mode (object identity, Allocate once, conservation) plus the race detector (a report is a violation; the program is replayable, the schedule is not). Every case is non-trivial (>=8 goroutines with shared keys).",
 		Gen:  genRace, Run: runRace,
+		// the schedule is not part of the case: a replay (and, after a first failure, every shrink
+		// candidate) is run up to Retries times and fails if any run fails
+		Retries: 60,
 	})
 }
